@@ -491,6 +491,10 @@ func (env *Env) call(x *ECall) Val {
 		return mathInt(sx("imin", arg(0).T, arg(1).T))
 	case "max":
 		return mathInt(sx("imax", arg(0).T, arg(1).T))
+	case "mod":
+		return mathInt(sx("mod", arg(0).T, arg(1).T))
+	case "div":
+		return mathInt(sx("div", arg(0).T, arg(1).T))
 	case "abs":
 		return mathInt(sx("iabs", arg(0).T))
 	case "clamp64":
@@ -548,6 +552,49 @@ func (env *Env) call(x *ECall) Val {
 		}
 		return Val{T: sx("i2f", v.T), S: "Real"}
 	}
+	if x.Fun == "inv" || strings.HasPrefix(x.Fun, "inv_") {
+		// inv(x): conjunction of the clauses of x's type invariant; inv_label(x): one labelled clause
+		v := arg(0)
+		ti := vc.typeInvOf(v.Ty)
+		if ti == nil {
+			cfail("inv(): no invariant declared for type %v", v.Ty)
+		}
+		var parts []string
+		for _, c := range ti.Clauses {
+			if x.Fun != "inv" && "inv_"+c.Label != x.Fun {
+				continue
+			}
+			n := env.with(ti.Var, v)
+			n.depth++
+			parts = append(parts, n.c(c.E).T)
+		}
+		if len(parts) == 0 {
+			cfail("%s: no such invariant clause", x.Fun)
+		}
+		return boolVal(smtAnd(parts...))
+	}
+	if sf, ok := vc.cs.Specs[x.Fun]; ok && sf.Abstract {
+		// uninterpreted spec function (a ghost token / oracle): heap independent
+		if len(x.Args) != len(sf.Params) {
+			cfail("spec function %s takes %d arguments", sf.Name, len(sf.Params))
+		}
+		var sorts, ts []string
+		for i, p := range sf.Params {
+			v := env.c(x.Args[i])
+			_, s := env.lookupType(p.Type)
+			if v.S != s {
+				cfail("spec function %s: argument %d has sort %s, want %s", sf.Name, i+1, v.S, s)
+			}
+			sorts = append(sorts, s)
+			ts = append(ts, v.T)
+		}
+		rty, rs := env.lookupType(sf.RetType)
+		f := vc.declareFun("spec_"+sf.Name, sorts, rs)
+		if len(ts) == 0 {
+			return Val{T: f, S: rs, Ty: rty}
+		}
+		return Val{T: sx(f, ts...), S: rs, Ty: rty}
+	}
 	if sf, ok := vc.cs.Specs[x.Fun]; ok {
 		if len(x.Args) != len(sf.Params) {
 			cfail("spec function %s takes %d arguments", sf.Name, len(sf.Params))
@@ -577,6 +624,21 @@ func (env *Env) call(x *ECall) Val {
 	}
 	cfail("unknown spec function %s", x.Fun)
 	return Val{}
+}
+
+// typeInvOf finds the declared invariant of (pointer to) named type t.
+func (vc *VC) typeInvOf(t types.Type) *TypeInv {
+	if t == nil {
+		return nil
+	}
+	if p, ok := t.Underlying().(*types.Pointer); ok {
+		t = p.Elem()
+	}
+	n, ok := types.Unalias(t).(*types.Named)
+	if !ok || n.Obj().Pkg() == nil {
+		return nil
+	}
+	return vc.cs.TypeInvs[n.Obj().Pkg().Name()+"."+n.Obj().Name()]
 }
 
 func (vc *VC) cardFun(ks string) string {
